@@ -13,7 +13,7 @@ type Bounds struct {
 	Ladder   []string // version alphabet, ascending
 	MaxVers  int      // max number of published versions per package
 	// Lite shrinks the secondary lists (used by C12, which multiplies every tuple by the option variants):
-	// CfgSets = {major}, {patch}, {minor, first package:none}; edge requirements = pins on the first 3 ladder
+	// CfgSets = {major}, {patch}, {minor, first package:none}, {major, last package:none} (if >1 package); edge requirements = pins on the first 3 ladder
 	// versions + one loose requirement; manifest requirement styles npm a, ^a / Maven a, ${p}=a, "[a,)".
 	Lite bool
 }
@@ -269,7 +269,12 @@ var levelNames = []string{"major", "minor", "patch", "none"}
 func (b Bounds) CfgSets(pkgs []string) [][]string {
 	var out [][]string
 	if b.Lite {
-		return [][]string{{"major"}, {"patch"}, {"minor", pkgs[0] + ":none"}}
+		out = [][]string{{"major"}, {"patch"}, {"minor", pkgs[0] + ":none"}}
+		if len(pkgs) > 1 {
+			// `none` on the last listed package (the vulnerable transitive one in the chain shapes)
+			out = append(out, []string{"major", pkgs[len(pkgs)-1] + ":none"})
+		}
+		return out
 	}
 	for _, d := range levelNames {
 		out = append(out, []string{d})
@@ -711,7 +716,7 @@ var ScopeShapes = []string{"shift"}
 //	       each of d1@a, d1@b independently depends on nothing | t2@1.0.0 | t1@1.0.0 (t1@1.0.0 -> t2@1.0.0);
 //	       d2 absent | d2@1.0.0 -> t2@1.0.0 | d2@1.0.0 -> t1@1.0.0  (OptionVariants marks d1 or d2 as dev);
 //	       t2 publishes {1.0.0} with V2 = t2 [0,nofix), or {1.0.0,1.0.1} with V2 = t2 [0,1.0.1); V1 = d1 [0,b);
-//	       R = a (thorough: also ^a / ${p}=a); upgrade config {major} | {patch} (thorough: also {minor}, {major,t2:none})
+//	       R = a (thorough: also ^a / ${p}=a); upgrade config {major} | {patch} | {major,t2:none} (thorough: also {minor}, {major,t1:none})
 //	       full product, simplest first.
 func (b Bounds) GenScopeShape(eco, shape string, emit func(*Case)) {
 	if shape != "shift" {
@@ -726,9 +731,9 @@ func (b Bounds) GenScopeShape(eco, shape string, emit func(*Case)) {
 		}
 		return nil
 	}
-	cfgs := [][]string{{"major"}, {"patch"}}
+	cfgs := [][]string{{"major"}, {"patch"}, {"major", "t2:none"}}
 	if b.Thorough {
-		cfgs = append(cfgs, []string{"minor"}, []string{"major", "t2:none"})
+		cfgs = append(cfgs, []string{"minor"}, []string{"major", "t1:none"})
 	}
 	for _, ab := range [][2]string{{"1.0.0", "1.0.1"}, {"1.0.0", "1.1.0"}, {"1.0.0", "2.0.0"}} {
 		reqs := []Req{{Name: "d1", Req: ab[0]}}
@@ -821,6 +826,80 @@ func (b Bounds) GenUpdateDup(emit func(*Case)) {
 				for _, cfg := range b.CfgSets([]string{"d1"}) {
 					emit(&Case{Eco: Maven, Shape: "update-dup", Pkgs: []Pkg{{Name: "d1", Vers: plainVers(s)}},
 						Manifest: []Req{{Name: "d1", Req: a1}, {Name: "d1", Req: a2, Classifier: "tests", Type: "test-jar"}}, Cfg: cfg})
+				}
+			}
+		}
+	}
+}
+
+// GenAliasShape enumerates npm universes whose manifest declares a direct dependency through an alias
+// ("<alias>": "npm:<real>@<req>"), alone or next to a plain requirement of the same real package
+// (used by C11 only). Upgrade configurations are keyed by the REAL package name (the name the policy,
+// PackageUpdate.Name and the vulnerability reports use); configurations keyed by the alias are included
+// as controls (for the oracle they configure nothing, so the default level applies to the real package).
+//
+//	cfgs(alias)  CfgSets(d1) + (major,d1:patch) (major,d1:minor) + alias-keyed (major,A:none) (none,A:major) (patch,A:minor) (minor,A:patch)
+//	alias-solo   manifest {A: npm:d1@R}; d1 publishes S; single-record vulns on d1
+//	             S in Subsets(ladder, MaxVers) x R in manifestReqs x {[0,f) f in ladder, [0,nofix)} x cfgs
+//	alias-plain  manifest {d1: R1, A: npm:d1@R2}; d1 publishes S
+//	             S in Subsets(ladder, 2) x R1, R2 in {a, ^a : a in S} x {[0,f), [0,nofix)} x cfgs
+//	alias-chain  manifest {A: npm:d1@a}; chainD registry (d1's i-th version pins t1@1.0.0 if bit i of mask else t1@2.0.0,
+//	             t1 publishes {1.0.0,2.0.0}); vulns {t1 [0,2.0.0)}, {t1 [0,nofix)}
+//	             D in Subsets(first 4 ladder versions, 2) x mask x a in D x vulns x cfgs (+ (major,t1:none))
+func (b Bounds) GenAliasShape(emit func(*Case)) {
+	const alias = "d1-legacy"
+	l := b.Ladder
+	cfgs := b.CfgSets([]string{"d1"})
+	cfgs = append(cfgs, []string{"major", "d1:patch"}, []string{"major", "d1:minor"},
+		[]string{"major", alias + ":none"}, []string{"none", alias + ":major"}, []string{"patch", alias + ":minor"}, []string{"minor", alias + ":patch"})
+	var singles [][]Vuln
+	for _, f := range l {
+		singles = append(singles, []Vuln{{ID: "V1", Pkg: "d1", Introduced: "0", Fixed: f}})
+	}
+	singles = append(singles, []Vuln{{ID: "V1", Pkg: "d1", Introduced: "0"}})
+	for _, s := range Subsets(l, b.MaxVers) {
+		for _, r := range b.manifestReqs(NPM, b.anchorsFor(s)) {
+			for _, vs := range singles {
+				for _, cfg := range cfgs {
+					emit(&Case{Eco: NPM, Shape: "alias-solo", Pkgs: []Pkg{{Name: "d1", Vers: plainVers(s)}},
+						Manifest: []Req{{Name: "d1", Req: r.Req, Alias: alias}}, Vulns: append([]Vuln(nil), vs...), Cfg: cfg})
+				}
+			}
+		}
+	}
+	for _, s := range Subsets(l, 2) {
+		var rs []string
+		for _, a := range s {
+			rs = append(rs, a, "^"+a)
+		}
+		for _, r1 := range rs {
+			for _, r2 := range rs {
+				for _, vs := range singles {
+					for _, cfg := range cfgs {
+						emit(&Case{Eco: NPM, Shape: "alias-plain", Pkgs: []Pkg{{Name: "d1", Vers: plainVers(s)}},
+							Manifest: []Req{{Name: "d1", Req: r1}, {Name: "d1", Req: r2, Alias: alias}}, Vulns: append([]Vuln(nil), vs...), Cfg: cfg})
+					}
+				}
+			}
+		}
+	}
+	ccfgs := append(append([][]string{}, cfgs...), []string{"major", "t1:none"})
+	for _, d := range Subsets(l[:4], 2) {
+		for mask := 1; mask < 1<<len(d); mask++ {
+			vers := make([]Ver, len(d))
+			for i, v := range d {
+				req := "2.0.0"
+				if mask&(1<<i) != 0 {
+					req = "1.0.0"
+				}
+				vers[i] = Ver{V: v, Deps: []Dep{{Name: "t1", Req: req}}}
+			}
+			for _, a := range d {
+				for _, fx := range []string{"2.0.0", ""} {
+					for _, cfg := range ccfgs {
+						emit(&Case{Eco: NPM, Shape: "alias-chain", Pkgs: []Pkg{{Name: "d1", Vers: vers}, {Name: "t1", Vers: plainVers([]string{"1.0.0", "2.0.0"})}},
+							Manifest: []Req{{Name: "d1", Req: a, Alias: alias}}, Vulns: []Vuln{{ID: "V1", Pkg: "t1", Introduced: "0", Fixed: fx}}, Cfg: cfg})
+					}
 				}
 			}
 		}
